@@ -190,7 +190,12 @@ Print Assumptions C12_decide_examples.
 (* ---------------------------------------------------------------------------------------------------------
    Several cache locations (Model/MemoryLoc.v): one M4 state per location driven in lock step; the entry of a
    function in _FUNCTION_HASHES carries the location of the store it was validated against (fix F45), so a step
-   that (re)writes the entry at location L makes every other location forget the function. *)
+   that (re)writes the entry at location L makes every other location forget the function.  The recorded location is
+   the path STRING: several spellings of one directory (aliases) share the store -- one state -- but are separate
+   tags; [sibs i] lists the model objects that are the same Python function reached through another spelling or
+   location, and they are forgotten together.  Both theorems hold for every [sibs]: using the string as the tag is
+   sound under aliasing, because a function reached through another spelling is simply not vouched for (slow path,
+   comparison with the shared func_code.py) and Memory.clear() empties the whole table. *)
 Require Import JV.Model.MemoryLoc JV.Proofs.MemoryLoc.
 
 (* along EVERY multi-location history, every call through the wrapper of a location where the history is
@@ -200,8 +205,8 @@ Theorem C12_location_sound :
          (C : cfg call key_input digest binding kbinding value src),
   (forall a b, digest_eqb C a b = true <-> a = b) -> (forall a b, src_eqb C a b = true <-> a = b) ->
   key_sound C -> f_respects C ->
-  forall n h, msound C (minit n) h.
-Proof. intros ? ? ? ? ? ? ? C Hd Hs KS FR n h. apply mrun_sound; auto. apply minit_inv. Qed.
+  forall (sibs : nat -> list nat) n h, msound C sibs (minit n) h.
+Proof. intros ? ? ? ? ? ? ? C Hd Hs KS FR sibs n h. apply mrun_sound; auto. apply minit_inv. Qed.
 Print Assumptions C12_location_sound.
 
 (* a fast-path answer at location L: func_code.py AT L holds the current source of the function *)
@@ -209,11 +214,11 @@ Theorem C12_fast_path_per_location :
   forall (call key_input digest binding kbinding value src : Type)
          (C : cfg call key_input digest binding kbinding value src),
   (forall a b, digest_eqb C a b = true <-> a = b) -> (forall a b, src_eqb C a b = true <-> a = b) ->
-  forall h n L st m k,
-  nth_error (snd (mrun C (minit n) h)) L = Some (st, Some m) ->
+  forall (sibs : nat -> list nat) h n L st m k,
+  nth_error (snd (mrun C sibs (minit n) h)) L = Some (st, Some m) ->
   usable C m k -> mem_nat k (table st) = true ->
   check_code C st k = Some (true, st) /\ disk st = Some (code C k).
-Proof. intros ? ? ? ? ? ? ? C Hd Hs. exact (fast_path_location C Hd Hs). Qed.
+Proof. intros ? ? ? ? ? ? ? C Hd Hs sibs. exact (fast_path_location C sibs Hd Hs). Qed.
 Print Assumptions C12_fast_path_per_location.
 
 (* the history of fixed finding F45: location 1 holds f(0) computed by the OLD text (a previous session); in the
@@ -224,8 +229,8 @@ Example C12_location_example :
   let h := [Everywhere (Define 1); At 1 (Wrap 1); At 1 (Call 1 (arg 0) true); Everywhere NewProcess;
             Everywhere (Define 2); At 0 (Wrap 2); At 1 (Wrap 2); At 0 (Call 2 (arg 0) true);
             At 1 (Call 2 (arg 0) true); At 0 (Call 2 (arg 0) true); At 1 (Call 2 (arg 0) true)] in
-  madmissible C 2 h = true /\
-  moutcomes C 2 h = [ODone; ODone; OMiss (1, 0); ODone; ODone; ODone; ODone; OMiss (2, 0); OMiss (2, 0);
+  madmissible C (fun i => [i]) 2 h = true /\
+  moutcomes C (fun i => [i]) 2 h = [ODone; ODone; OMiss (1, 0); ODone; ODone; ODone; ODone; OMiss (2, 0); OMiss (2, 0);
                      OHit (2, 0); OHit (2, 0)].
 Proof. split; vm_compute; reflexivity. Qed.
 Print Assumptions C12_location_example.
